@@ -1116,7 +1116,10 @@ impl Ctx {
             "wall_s": (self.start.elapsed().as_secs_f64() * 100.0).round() / 100.0,
             "violations": violations.len(),
         });
-        if !self.is_replay() {
+        if std::env::var("VERIF_CHILD").is_ok() {
+            // child process of a check: no evidence file, a machine-readable summary instead
+            println!("CHILD-SUMMARY {}", serde_json::to_string(&doc).unwrap());
+        } else if !self.is_replay() {
             let dir = self.root.join("evidence");
             let _ = std::fs::create_dir_all(&dir);
             let p = dir.join(format!("{}.json", self.property));
